@@ -241,6 +241,20 @@ def exec (s : B) : List BOp → List Choice → B
   | .insert k :: ops, chs => exec (env s (.insert k)) ops chs
   | .remove k :: ops, chs => exec (env s (.remove k)) ops chs
 
+/-- A whole script as `run`, but the observation goes on after a hang: a caller that waited on an
+endpoint-less channel gives up (its request is dropped from the buffer; the worker's `poll_ready`
+had nothing to poll), and the script continues from the state that call left behind.  `run` is
+what the harness can observe of the real channel; `runAll` exists so that the run-level theorems
+speak about EVERY call of a script, not only those up to the first hang. -/
+def runAll (s : B) : List BOp → List Choice → List (Nat × BRes)
+  | [], _ => []
+  | .call :: ops, chs =>
+    (members s.eps, (call s (chs.headD ⟨[], 0⟩)).2) :: runAll (call s (chs.headD ⟨[], 0⟩)).1 ops chs.tail
+  | .up k :: ops, chs => runAll (env s (.up k)) ops chs
+  | .down k :: ops, chs => runAll (env s (.down k)) ops chs
+  | .insert k :: ops, chs => runAll (env s (.insert k)) ops chs
+  | .remove k :: ops, chs => runAll (env s (.remove k)) ops chs
+
 /-- `m` calls in a row, nothing else happening. -/
 def calls (s : B) : List Choice → List BRes
   | [] => []
